@@ -8,14 +8,30 @@ Open Scope Z_scope.
 (** gql | MATCH (x)-[r:R]->(y) WHERE r.w > 5 RETURN x, r, y *)
 Definition w_zone_edge_st : store := (mkStore [mkNode (0) ["A"%string] [("u"%string, (VInt (100))); ("w"%string, (VInt (1)))]; mkNode (1) ["A"%string] [("u"%string, (VInt (101)))]] [mkEdge (0) (0) (1) "R"%string [("eu"%string, (VInt (500))); ("w"%string, (VInt (9)))]] [] [("u"%string, mkZcol [(VInt (100)); (VInt (101))] false); ("w"%string, mkZcol [(VInt (1))] false)]).
 Definition w_zone_edge_p : lop := (LReturn [((EVar "x"%string), None); ((EVar "r"%string), None); ((EVar "y"%string), None)] false (LFilter (ECmp OGt (EProp "r"%string "w"%string) (ELit (VInt (5)))) (LExpand "x"%string "y"%string (Some "r"%string) Out (Some "R"%string) 1%nat (Some 1%nat) (LScan "x"%string None)))).
-Lemma zone_edge_refuted_l : exists st p, k_zone_edge st p = true /\ run (opts_engine true) st p <> sem_ops st p.
-Proof. exists w_zone_edge_st, w_zone_edge_p. split; [reflexivity|]. intro H. vm_compute in H. discriminate H. Qed.
+(** repaired by bad2e33: the zone-map check was applied to any filter, also over an Expand; the
+    verdict "no match" for [r.w > 5] came from the NODE column w although the row's edge passes *)
+Lemma zone_edge_pre_refuted_l : exists st e cs r,
+  zone_check st e = Some false /\ passes_row st cs r e = true /\
+  k_zone_edge w_zone_edge_st w_zone_edge_p = true /\
+  run (opts_engine true) w_zone_edge_st w_zone_edge_p = sem_ops w_zone_edge_st w_zone_edge_p.
+Proof.
+  exists w_zone_edge_st, (ECmp OGt (EProp "r" "w") (ELit (VInt 5))), ["x"; "r"; "y"]%string, [CNode 0; CEdge 0; CNode 1].
+  split; [reflexivity|]. split; [reflexivity|]. split; reflexivity.
+Qed.
 
 (** gql | MATCH (n:A) WHERE (n.x = 1 AND n.y > 6) RETURN n *)
 Definition w_index_residual_st : store := (mkStore [mkNode (0) ["A"%string] [("u"%string, (VInt (100))); ("x"%string, (VInt (1))); ("y"%string, (VInt (5)))]; mkNode (1) ["A"%string] [("u"%string, (VInt (101))); ("x"%string, (VInt (1))); ("y"%string, (VInt (7)))]; mkNode (2) ["A"%string] [("u"%string, (VInt (102))); ("x"%string, (VFlt (1) (1))); ("y"%string, (VInt (9)))]] [] ["x"%string] [("u"%string, mkZcol [(VInt (100)); (VInt (101)); (VInt (102))] false); ("x"%string, mkZcol [(VInt (1)); (VInt (1)); (VFlt (1) (1))] false); ("y"%string, mkZcol [(VInt (5)); (VInt (7)); (VInt (9))] false)]).
 Definition w_index_residual_p : lop := (LReturn [((EVar "n"%string), None)] false (LFilter (EAnd (ECmp OEq (EProp "n"%string "x"%string) (ELit (VInt (1)))) (ECmp OGt (EProp "n"%string "y"%string) (ELit (VInt (6))))) (LScan "n"%string (Some "A"%string)))).
-Lemma index_residual_refuted_l : exists st p, k_index_residual st p = true /\ run (opts_engine true) st p <> sem_ops st p.
-Proof. exists w_index_residual_st, w_index_residual_p. split; [reflexivity|]. intro H. vm_compute in H. discriminate H. Qed.
+(** repaired by 08d6ceb: the index path returned the NodeList without re-applying the predicate *)
+Lemma index_residual_pre_refuted_l : exists st x label e t,
+  try_index_pre st (idx_of st) e (LScan x label) = Some t /\
+  t <> filter_tbl (fun r => passes_row st [x] r e) (mkT [x] (scan_rows st label)) /\
+  k_index_residual w_index_residual_st w_index_residual_p = true.
+Proof.
+  exists w_index_residual_st, "n"%string, (Some "A"%string),
+         (EAnd (ECmp OEq (EProp "n" "x") (ELit (VInt 1))) (ECmp OGt (EProp "n" "y") (ELit (VInt 6)))).
+  eexists. split; [reflexivity|]. split; [intro H; vm_compute in H; discriminate H|reflexivity].
+Qed.
 
 (** gql | MATCH (n:A) WHERE n.x = 1 RETURN n *)
 Definition w_index_num_st : store := (mkStore [mkNode (0) ["A"%string] [("u"%string, (VInt (100))); ("x"%string, (VInt (1))); ("y"%string, (VInt (5)))]; mkNode (1) ["A"%string] [("u"%string, (VInt (101))); ("x"%string, (VInt (1))); ("y"%string, (VInt (7)))]; mkNode (2) ["A"%string] [("u"%string, (VInt (102))); ("x"%string, (VFlt (1) (1))); ("y"%string, (VInt (9)))]] [] ["x"%string] [("u"%string, mkZcol [(VInt (100)); (VInt (101)); (VInt (102))] false); ("x"%string, mkZcol [(VInt (1)); (VInt (1)); (VFlt (1) (1))] false); ("y"%string, mkZcol [(VInt (5)); (VInt (7)); (VInt (9))] false)]).
@@ -52,8 +68,15 @@ Qed.
 (** gql | MATCH (a)-[r]->(b)-[s]->(c) RETURN count(DISTINCT a) *)
 Definition w_fact_agg_distinct_st : store := (mkStore [mkNode (0) ["A"%string] [("u"%string, (VInt (100)))]; mkNode (1) ["A"%string] [("u"%string, (VInt (101)))]; mkNode (2) ["B"%string] [("u"%string, (VInt (102)))]; mkNode (3) ["B"%string] [("u"%string, (VInt (103)))]] [mkEdge (0) (0) (1) "R"%string []; mkEdge (1) (1) (2) "R"%string []; mkEdge (2) (1) (3) "R"%string []] [] [("u"%string, mkZcol [(VInt (100)); (VInt (101)); (VInt (102)); (VInt (103))] false)]).
 Definition w_fact_agg_distinct_p : lop := (LAggregate [] [(mkAgg ACountNN (Some (EVar "a"%string)) true None)] (LExpand "b"%string "c"%string (Some "s"%string) Out None 1%nat (Some 1%nat) (LExpand "a"%string "b"%string (Some "r"%string) Out None 1%nat (Some 1%nat) (LScan "a"%string None)))).
-Lemma fact_agg_distinct_refuted_l : exists st p, k_fact_agg_distinct p = true /\ run (opts_engine true) st p <> sem_ops st p.
-Proof. exists w_fact_agg_distinct_st, w_fact_agg_distinct_p. split; [reflexivity|]. intro H. vm_compute in H. discriminate H. Qed.
+(** repaired by 6a43305: COUNT(DISTINCT x) was accepted by the factorized aggregate, which counts rows *)
+Lemma fact_agg_distinct_pre_refuted_l : exists a inputs n,
+  simple_count_pre a <> None /\ simple_count a = None /\ agg_value a inputs n <> Ok (VInt (Z.of_nat n)) /\
+  k_fact_agg_distinct w_fact_agg_distinct_p = true /\
+  run (opts_engine true) w_fact_agg_distinct_st w_fact_agg_distinct_p = sem_ops w_fact_agg_distinct_st w_fact_agg_distinct_p.
+Proof.
+  exists (mkAgg ACountNN (Some (EVar "a"%string)) true None), [VInt 0; VInt 0], 2%nat.
+  split; [discriminate|]. split; [reflexivity|]. split; [intro H; vm_compute in H; discriminate H|]. split; reflexivity.
+Qed.
 
 (** gql | MATCH (a)-[r:KNOWS]->(b)-[s:OTHER]->(c) RETURN count(a) *)
 Definition w_fact_missing_level_st : store := (mkStore [mkNode (0) ["A"%string] [("u"%string, (VInt (100)))]; mkNode (1) ["A"%string] [("u"%string, (VInt (101)))]; mkNode (2) ["B"%string] [("u"%string, (VInt (102)))]] [mkEdge (0) (0) (1) "KNOWS"%string [("eu"%string, (VInt (500)))]; mkEdge (1) (1) (2) "KNOWS"%string [("eu"%string, (VInt (501)))]] [] [("u"%string, mkZcol [(VInt (100)); (VInt (101)); (VInt (102))] false)]).
@@ -64,8 +87,15 @@ Proof. exists w_fact_missing_level_st, w_fact_missing_level_p. split; [reflexivi
 (** gql | MATCH (a)-[r:KNOWS]->(b)-[s:knows]->(c) RETURN a, c *)
 Definition w_fact_type_case_st : store := (mkStore [mkNode (0) ["A"%string] [("u"%string, (VInt (100)))]; mkNode (1) ["A"%string] [("u"%string, (VInt (101)))]; mkNode (2) ["B"%string] [("u"%string, (VInt (102)))]] [mkEdge (0) (0) (1) "KNOWS"%string [("eu"%string, (VInt (500)))]; mkEdge (1) (1) (2) "KNOWS"%string [("eu"%string, (VInt (501)))]] [] [("u"%string, mkZcol [(VInt (100)); (VInt (101)); (VInt (102))] false)]).
 Definition w_fact_type_case_p : lop := (LReturn [((EVar "a"%string), None); ((EVar "c"%string), None)] false (LExpand "b"%string "c"%string (Some "s"%string) Out (Some "knows"%string) 1%nat (Some 1%nat) (LExpand "a"%string "b"%string (Some "r"%string) Out (Some "KNOWS"%string) 1%nat (Some 1%nat) (LScan "a"%string None)))).
-Lemma fact_type_case_refuted_l : exists st p, k_fact_type_case st p = true /\ run (opts_engine true) st p <> sem_ops st p.
-Proof. exists w_fact_type_case_st, w_fact_type_case_p. split; [reflexivity|]. intro H. vm_compute in H. discriminate H. Qed.
+(** repaired by c5b2b84: the deeper levels of a factorized chain compared the edge type exactly *)
+Lemma fact_type_case_pre_refuted_l : exists st n d ty,
+  neighbors st false n d ty <> neighbors st true n d ty /\
+  k_fact_type_case w_fact_type_case_st w_fact_type_case_p = true /\
+  run (opts_engine true) w_fact_type_case_st w_fact_type_case_p = sem_ops w_fact_type_case_st w_fact_type_case_p.
+Proof.
+  exists w_fact_type_case_st, 1, Out, (Some "knows"%string).
+  split; [intro H; vm_compute in H; discriminate H|]. split; reflexivity.
+Qed.
 
 (** graphql | { a { u S { u } R { u } } } *)
 Definition w_fact_not_path_st : store := (mkStore [mkNode (0) ["A"%string] [("u"%string, (VInt (100)))]; mkNode (1) ["A"%string] [("u"%string, (VInt (101)))]; mkNode (2) ["B"%string] [("u"%string, (VInt (102)))]; mkNode (3) ["B"%string] [("u"%string, (VInt (103)))]] [mkEdge (0) (0) (1) "R"%string []; mkEdge (1) (0) (2) "R"%string []; mkEdge (2) (1) (2) "S"%string []; mkEdge (3) (2) (3) "R"%string []] [] [("u"%string, mkZcol [(VInt (100)); (VInt (101)); (VInt (102)); (VInt (103))] false)]).
